@@ -9,6 +9,14 @@
  * Thresholds: calib/c09.json (compiled in below).
  */
 #include "vcodec.h"
+#include "entdec.h"
+extern const opus_uint8 * const silk_LBRR_flags_iCDF_ptr[2];
+/* which 20 ms SILK frames of a (code 0) packet carry LBRR data for the mid channel: the header bits RFC 6716 4.2.3/4.2.4 define (VAD and
+   LBRR flag per channel, then the per-frame LBRR symbol); -1 for packets this does not apply to */
+static int lbrr_frame_flags(const unsigned char *pkt,int len,int flags[3]){ flags[0]=flags[1]=flags[2]=0; if(len<2||(pkt[0]&3)!=0||(pkt[0]&0x80)) return -1; int cfg=pkt[0]>>3, nf= cfg<12?((cfg&3)==2?2:(cfg&3)==3?3:1):1, nch=(pkt[0]&4)?2:1; ec_dec dec; ec_dec_init(&dec,(unsigned char*)pkt+1,len-1); int lb[2]={0,0};
+  for(int n=0;n<nch;n++){ for(int i=0;i<nf;i++) ec_dec_bit_logp(&dec,1); lb[n]=ec_dec_bit_logp(&dec,1); }
+  if(lb[0]){ if(nf==1) flags[0]=1; else { int sym=ec_dec_icdf(&dec,silk_LBRR_flags_iCDF_ptr[nf-2],8)+1; for(int i=0;i<nf;i++) flags[i]=(sym>>i)&1; } }
+  return nf; }
 
 /* ---- committed calibration (see calib/c09.json) */
 #ifndef C09_KAPPA
@@ -16,20 +24,33 @@
 #define C09_PEAK_KAPPA 3.3     /* concealed peak <= x recent peak */
 #define C09_DELTA 0.7          /* after >= 1 s of continuous loss: block RMS <= DELTA x recent level */
 #define C09_RHO 1.0            /* sum of FEC error energies <= RHO x sum of PLC error energies, over a case's LBRR events */
+#define C09_LBRR_GAIN 0.5      /* decoded LBRR sub-frame gain >= this x the gain the encoder quantised the LBRR frame with */
 #define C09_FRAC 0.7           /* at least this fraction of a case's LBRR events must be closer to the loss-free twin than concealment */
 #define C09_RECOVER_DB 20.0    /* segmental SNR vs the loss-free twin, 1 s after the last loss */
 #endif
 
+/* hooks H3 + H2: the encoder reports the sub-frame gains it quantises every LBRR frame with (mid channel recorded per packet / 20 ms frame);
+   an FEC call compares the gains the decoder rebuilds each LBRR frame with against them.  A frame coded independently is subject to the
+   decoder's "at most 16 steps below the previous gain" limiter, which can only raise the decoded gain. */
+#include "main.h"
+extern void (*opus_verif_silk_params_cb)(const silk_decoder_state *psDec,const silk_decoder_control *psDecCtrl,const opus_int16 *pNLSF_Q15) __attribute__((weak));
+extern void (*opus_verif_silk_lbrr_gains_cb)(int channelNb,int frame,int nb_subfr,const opus_int32 *Gains_Q16) __attribute__((weak));
+static opus_int32 g_enc[1400][3][4]; static int g_phase=0, g_pkt=0; static const void *g_mid=NULL; static double g_minratio, g_maxratio; static int g_seen, g_exact;
+static void lbrr_enc_cb(int chn,int frame,int nsub,const opus_int32 *g){ if(chn!=0||frame<0||frame>2||g_phase!=1) return; for(int k=0;k<4;k++) g_enc[g_pkt][frame][k]= k<nsub?g[k]:0; }
+static void gains_cb(const silk_decoder_state *psDec,const silk_decoder_control *c,const opus_int16 *nlsf){ (void)nlsf; if(!g_mid) g_mid=psDec; if(psDec!=g_mid||g_phase!=2) return; int j=psDec->nFramesDecoded; if(j<0||j>2) return;
+  for(int k=0;k<psDec->nb_subfr;k++) if(g_enc[g_pkt][j][k]>0){ double q=(double)c->Gains_Q16[k]/g_enc[g_pkt][j][k]; if(q<g_minratio) g_minratio=q; if(q>g_maxratio) g_maxratio=q; g_seen++; if(c->Gains_Q16[k]==g_enc[g_pkt][j][k]) g_exact++; }
+  if(getenv("C09_DEBUG")&&atoi(getenv("C09_DEBUG"))>=2) fprintf(stderr,"  lbrr of packet %d frame %d decoded gains %d %d %d %d encoder's %d %d %d %d\n",g_pkt,j,c->Gains_Q16[0],c->Gains_Q16[1],c->Gains_Q16[2],c->Gains_Q16[3],g_enc[g_pkt][j][0],g_enc[g_pkt][j][1],g_enc[g_pkt][j][2],g_enc[g_pkt][j][3]); }
 #define MAXP 1400
 typedef struct { int n, fs, ch, Fs, mode, fidx; unsigned char *pkt[MAXP]; int len[MAXP]; opus_uint32 rng[MAXP]; int lbrr[MAXP]; float *twin; } cstream;
 static void make_stream(vc_rng *r,cstream *s,int want_ms){ int err; static const int mfs[3][5]={{2,3,4,5,3},{2,3,3,3,2},{0,1,2,3,3}}; int mode=VK_MODE_SILK+(int)vc_below(r,3); int eFs=vc_chance(r,2,3)?48000:VC_PICK(r,vk_rates); int ch=1+vc_below(r,2); int fidx=mfs[mode-VK_MODE_SILK][vc_below(r,5)];
   OpusEncoder *e=opus_encoder_create(eFs,ch,OPUS_APPLICATION_AUDIO,&err); opus_encoder_ctl(e,VK_SET_FORCE_MODE_REQUEST,mode); int bw= mode==VK_MODE_SILK?OPUS_BANDWIDTH_NARROWBAND+(int)vc_below(r,3): mode==VK_MODE_HYBRID?OPUS_BANDWIDTH_SUPERWIDEBAND+(int)vc_below(r,2):OPUS_AUTO; opus_encoder_ctl(e,OPUS_SET_BANDWIDTH(bw));
   opus_encoder_ctl(e,OPUS_SET_BITRATE(vc_range(r,16000,64000)*ch)); int fec=(mode!=VK_MODE_CELT)&&vc_chance(r,3,4); if(fec){ opus_encoder_ctl(e,OPUS_SET_INBAND_FEC(1)); opus_encoder_ctl(e,OPUS_SET_PACKET_LOSS_PERC(vc_range(r,15,40))); }
   vc_siggen g; vs_init(&g,VS_SPEECHLIKE,eFs,ch,(float)(0.3+0.5*vc_unit(r)),vc_next(r)); int efs=vk_frame_samples(eFs,fidx); static float in[5760*2]; unsigned char buf[1500]; int n=(int)(want_ms/(efs*1000.0/eFs)); if(n>MAXP) n=MAXP; s->n=0;
-  for(int k=0;k<n;k++){ vs_fill(&g,in,efs); int len=opus_encode_float(e,in,efs,buf,1500); if(len<=0) break; s->pkt[s->n]=vc_exact_copy(buf,len); s->len[s->n]=len; opus_encoder_ctl(e,OPUS_GET_FINAL_RANGE(&s->rng[s->n])); s->lbrr[s->n]=opus_packet_has_lbrr(buf,len)>0; s->n++; }
-  opus_encoder_destroy(e); s->Fs=vc_chance(r,2,3)?eFs:VC_PICK(r,vk_rates); s->ch=vc_chance(r,3,4)?ch:1+(int)vc_below(r,2); s->fs=(int)((long long)efs*s->Fs/eFs); s->mode=mode; s->fidx=fidx;
+  memset(g_enc,0,sizeof g_enc); g_phase=1;
+  for(int k=0;k<n;k++){ vs_fill(&g,in,efs); g_pkt=s->n; int len=opus_encode_float(e,in,efs,buf,1500); if(len<=0) break; s->pkt[s->n]=vc_exact_copy(buf,len); s->len[s->n]=len; opus_encoder_ctl(e,OPUS_GET_FINAL_RANGE(&s->rng[s->n])); s->lbrr[s->n]=opus_packet_has_lbrr(buf,len)>0; s->n++; }
+  g_phase=0; opus_encoder_destroy(e); s->Fs=vc_chance(r,2,3)?eFs:VC_PICK(r,vk_rates); s->ch=vc_chance(r,3,4)?ch:1+(int)vc_below(r,2); s->fs=(int)((long long)efs*s->Fs/eFs); s->mode=mode; s->fidx=fidx;
   /* loss-free twin */
-  s->twin=(float*)malloc(sizeof(float)*(size_t)s->n*s->fs*s->ch); OpusDecoder *d=opus_decoder_create(s->Fs,s->ch,&err); for(int k=0;k<s->n;k++){ int rc=opus_decode_float(d,s->pkt[k],s->len[k],s->twin+(size_t)k*s->fs*s->ch,s->fs,0); if(rc!=s->fs){ fprintf(stderr,"twin decode %d\n",rc); exit(3); } } opus_decoder_destroy(d); }
+  s->twin=(float*)malloc(sizeof(float)*(size_t)s->n*s->fs*s->ch); OpusDecoder *d=opus_decoder_create(s->Fs,s->ch,&err); g_mid=NULL; for(int k=0;k<s->n;k++){ int rc=opus_decode_float(d,s->pkt[k],s->len[k],s->twin+(size_t)k*s->fs*s->ch,s->fs,0); if(rc!=s->fs){ fprintf(stderr,"twin decode %d\n",rc); exit(3); } } g_phase=0; g_mid=NULL; opus_decoder_destroy(d); }
 static void free_stream(cstream *s){ for(int i=0;i<s->n;i++) free(s->pkt[i]); free(s->twin); }
 
 typedef struct { double blk[25]; double pk[25]; int nb; double acc; double accpk; int accn; int blkn; } recent_t;   /* last 500 ms of normally decoded audio in 20 ms blocks */
@@ -50,7 +71,7 @@ static int check_concealed(const float *x,int n,int ch,const recent_t *q,double 
     if(t>=1000&&lvl>0.02&&rm>C09_DELTA*lvl){ vc_viol("conceal:no-decay","%s: after %.0f ms of continuous loss the output level %.4f is still %.2f x the pre-loss level %.4f (%s)",what,t,rm,rm/lvl,lvl,ctx); return 1; } }
   return 0; }
 
-static long fec_better=0;
+static long fec_better=0, lbrr_sub=0, lbrr_silent=0;
 static int decode_pattern(const cstream *s,OpusDecoder *d,OpusDecoder *clone,const unsigned char *lost,int shape,const char *ctx,double *fec_err,double *plc_err,long *fec_events){
   static float out[5760*2], out2[5760*2]; int fs=s->fs, ch=s->ch, Fs=s->Fs; recent_t q; recent_reset(&q,Fs); int sz=opus_decoder_get_size(ch); double lossms=0; int last_loss=-1000; double sig=0,noi=0; long rn=0;
   opus_decoder_ctl(d,OPUS_RESET_STATE); cacc.e=0; cacc.p=0; cacc.n=0;
@@ -58,13 +79,17 @@ static int decode_pattern(const cstream *s,OpusDecoder *d,OpusDecoder *clone,con
     if(lost[i]){ int next_ok=(i+1<s->n&&!lost[i+1]); int use_fec=(shape==2||shape==3)&&next_ok&&s->mode!=VK_MODE_CELT;
       if(use_fec){ /* the decoder conceals from a clone first (for comparison), then the real decoder uses the next packet's LBRR */
         memcpy(clone,d,sz); int rp=opus_decode_float(clone,NULL,0,out2,fs,0); int want=fs; int big=(shape==3&&fs*2<=Fs/25*3); if(big) want=fs*2;   /* frame_size larger than the packet: concealment for the gap + LBRR */
-        int rf=opus_decode_float(d,s->pkt[i+1],s->len[i+1],out,want,1); vc_count("fec_calls",1);
+        g_phase=2; g_pkt=i; g_minratio=1e9; g_maxratio=0; g_seen=0; g_exact=0; int rf=opus_decode_float(d,s->pkt[i+1],s->len[i+1],out,want,1); g_phase=0; vc_count("fec_calls",1);
+        if(g_seen){ vc_count("lbrr_subframe_gains_compared",g_seen); vc_count("lbrr_subframe_gains_equal_to_encoder",g_exact); vc_min("lbrr_decoded_gain_over_encoder_gain",g_minratio); vc_max("lbrr_decoded_gain_over_encoder_gain",g_maxratio);
+          if(g_minratio<C09_LBRR_GAIN){ vc_viol("fec:lbrr-gain-collapsed","a frame rebuilt from the LBRR data in packet %d is decoded with a sub-frame gain %.4f x the gain the encoder quantised that LBRR frame with (%s)",i+1,g_minratio,ctx); return 1; } }
         if(rp!=fs||rf!=want){ vc_viol("fec:duration","FEC call returned %d for frame_size %d (concealment on the clone %d) %s",rf,want,rp,ctx); return 1; }
         const float *frame=out+(size_t)(want-fs)*ch; for(int k=0;k<want*ch;k++) if(!isfinite(out[k])){ vc_viol("fec:not-finite","non-finite sample in FEC output (%s)",ctx); return 1; }
         /* the concealed part (the gap before the LBRR frame, or everything when the packet has no LBRR) obeys the concealment bounds; a frame rebuilt from LBRR data is coded audio and may legitimately be an onset */
         if(big){ if(check_concealed(out,want-fs,ch,&q,lossms,Fs,"FEC call, concealed gap",ctx)) return 1; } if(!s->lbrr[i+1]){ if(check_concealed(frame,fs,ch,&q,lossms+(big?Dms:0),Fs,"FEC call on a packet without LBRR",ctx)) return 1; } else { cacc.e=0; cacc.p=0; cacc.n=0; }
         if(!big){ double ef=0,ep=0; const float *t=s->twin+(size_t)i*fs*ch; for(int k=0;k<fs*ch;k++){ double a=frame[k]-t[k], b=out2[k]-t[k]; ef+=a*a; ep+=b*b; }
-          if(s->lbrr[i+1]){ *fec_err+=ef; *plc_err+=ep; (*fec_events)++; vc_count("fec_lbrr_events",1); if(ef<ep){ vc_count("fec_better_than_plc",1); fec_better++; } }
+          if(s->lbrr[i+1]){ /* per 20 ms sub-frame: a frame rebuilt from LBRR data must carry the audio, not near-silence */
+            int sb=Fs/50, lf[3]; int nlf=lbrr_frame_flags(s->pkt[i+1],s->len[i+1],lf); if(sb<=fs&&nlf==fs/sb) for(int b0=0;b0+sb<=fs;b0+=sb){ if(!lf[b0/sb]){ vc_count("fec_subframes_without_lbrr_data",1); continue; } double et=0,efb=0; for(int k=b0*ch;k<(b0+sb)*ch;k++){ et+=(double)t[k]*t[k]; efb+=(double)frame[k]*frame[k]; } vc_count("fec_lbrr_subframes",1); lbrr_sub++; if(et>sb*ch*0.03*0.03&&efb<0.003*et){ vc_count("fec_lbrr_subframes_near_silent",1); lbrr_silent++; if(getenv("C09_DEBUG")) fprintf(stderr,"near-silent LBRR sub-frame: packet %d sub %d twin rms %.4f fec rms %.5f (%s)\n",i,b0/sb,sqrt(et/(sb*ch)),sqrt(efb/(sb*ch)),ctx); } }
+            *fec_err+=ef; *plc_err+=ep; (*fec_events)++; vc_count("fec_lbrr_events",1); if(ef<ep){ vc_count("fec_better_than_plc",1); fec_better++; } }
           else { vc_count("fec_without_lbrr",1); if(memcmp(frame,out2,sizeof(float)*fs*ch)==0) vc_count("fec_without_lbrr_equals_plc",1); else vc_count("fec_without_lbrr_differs_from_plc",1); /* 'behaves like concealment': bounded like concealment (checked above); bit equality with a cloned decoder's concealment is reported, not required */ } }
         lossms+=Dms*(big?2:1); last_loss=i; continue; }
       /* concealment, whole or in pieces */
@@ -88,9 +113,10 @@ static int decode_pattern(const cstream *s,OpusDecoder *d,OpusDecoder *clone,con
 static void mode_window(void){
   vc_rng r; vc_case_rng(&r,9); int err; int K=(int)vc_argl("k",8); cstream s; make_stream(&r,&s,3400); double Dms0=s.fs*1000.0/s.Fs; int pos_min=(int)(500/Dms0)+1, pos_max=s.n-K-(int)(1500/Dms0)-2; if(pos_max<pos_min){ vc_count("streams_too_short",1); free_stream(&s); return; }
   OpusDecoder *d=opus_decoder_create(s.Fs,s.ch,&err); OpusDecoder *clone=(OpusDecoder*)malloc(opus_decoder_get_size(s.ch)); int pos=vc_range(&r,pos_min,pos_max); char ctx[200]; static unsigned char lost[MAXP]; double fe=0,pe=0; long fev=0;
-  fec_better=0;
+  fec_better=0; lbrr_sub=0; lbrr_silent=0;
   for(unsigned pat=0;pat<(1u<<K);pat++){ memset(lost,0,sizeof lost); for(int b=0;b<K;b++) if(pat&(1u<<b)) lost[pos+b]=1; int shape=(pat*2654435761u>>13)&3; snprintf(ctx,sizeof ctx,"mode %d frame %.1f ms Fs %d ch %d window at %d pattern %#x shape %d",s.mode,s.fs*1000.0/s.Fs,s.Fs,s.ch,pos,pat,shape);
     if(decode_pattern(&s,d,clone,lost,shape,ctx,&fe,&pe,&fev)) goto out; vc_count("patterns",1); }
+  /* near-silent LBRR reconstructions are reported (counters): an LBRR frame quantised with raised gains may legitimately code no pulses */
   if(fev>=40){ vc_max("fec_error_energy_over_plc_error_energy",fe/(pe+1e-20)); vc_count("fec_aggregates",1); vc_min("fec_fraction_of_events_better_than_plc",(double)fec_better/fev); if(fe>C09_RHO*pe||fec_better<C09_FRAC*fev){ vc_viol("fec:not-better-than-plc","over %ld lost frames whose next packet carries LBRR, FEC error energy is %.2f x the concealment error energy and only %ld are closer to the loss-free decoder than concealment (%s)",fev,fe/(pe+1e-20),fec_better,ctx); } else vc_count("fec_aggregate_checked",1); }
   vc_sig3((uint64_t)s.mode|((uint64_t)s.fidx<<12),(uint64_t)(s.Fs/8000)|((uint64_t)s.ch<<3),(uint64_t)K);
   if(vc_want_sample()) vc_sample("{\"mode\":\"window\",\"codec_mode\":%d,\"frame_ms\":%.1f,\"Fs\":%d,\"ch\":%d,\"packets\":%d,\"window_at\":%d,\"k\":%d,\"patterns\":%u,\"lbrr_events\":%ld}",s.mode,s.fs*1000.0/s.Fs,s.Fs,s.ch,s.n,pos,K,1u<<K,fev);
@@ -107,6 +133,7 @@ static void mode_burst(void){
 }
 
 int main(int argc,char **argv){
+  if(!&opus_verif_silk_params_cb){ fprintf(stderr,"hook H2 (opus_verif_silk_params_cb) is missing from this tree\n"); return 3; } opus_verif_silk_params_cb=gains_cb; if(!&opus_verif_silk_lbrr_gains_cb){ fprintf(stderr,"hook H3 (opus_verif_silk_lbrr_gains_cb) is missing from this tree\n"); return 3; } opus_verif_silk_lbrr_gains_cb=lbrr_enc_cb;
   static const vc_mode_t modes[]={{"window",mode_window},{"burst",mode_burst},{0,0}};
   return vc_main(argc,argv,"C09",modes);
 }
